@@ -309,6 +309,9 @@ func decodeScalar(data []byte, oid int) interface{} {
 		if v := ParseJSONB(data); v != nil {
 			return v
 		}
+		if len(data) == 8 && u32(data, 0) == jbFArray|jbFScalar|1 && u32(data, 4)&0x70000000 == jeNull {
+			return nil // the document is the JSON value null
+		}
 		return safeString(data)
 
 	// Range types
